@@ -398,6 +398,38 @@ def random_walks(nwalks, depth, maxatoms, sd):
     return walks
 
 
+def impl_cfg(rule, order, tier):
+    big = tier == "thorough"
+    return ("SPECIFICATION Spec\nCONSTANTS\n  OffsetRule = \"%s\"\n  DeleteOrder = \"%s\"\n  InitFrags = %s\n  ExtFrags = %s\n"
+            "  MaxAtoms = %d\n  MaxDepth = %d\n  MaxMap = %d\n  MaxDel = %d\nINVARIANT Refines\nINVARIANT WellFormed\nCHECK_DEADLOCK FALSE\n"
+            % (rule, order, '{"F2p", "F4p", "F3r", "F4b", "F3a", "E"}' if big else '{"F2p", "F4p", "F3r", "F4b"}',
+               '{"F1p", "F2p", "F3p", "F3q", "F2b", "F4b"}' if big else '{"F1p", "F3p", "F3q", "F2b"}',
+               10 if big else 8, 3 if big else 2, 2 if big else 1, 3 if big else 2))
+
+
+def design_level(out, prop, tier):
+    """AtomsImpl (the array algorithms) refines AtomsAbs; the two design variants that must be refuted are refuted."""
+    res = run_tlc("MC_AtomsImpl", impl_cfg("table_length", "descending", tier), workers=16, timeout=3000, tag="impl")
+    if res.error:
+        raise MachineryError("MC_AtomsImpl failed:\n" + res.error)
+    out.model("MC_AtomsImpl(refinement, %s)" % tier, res)
+    if res.violated:
+        out.violation({"op": "spec", "clause": "design level does not refine the property level: %s" % res.violated},
+                      {"tlc_output_tail": res.stdout[-3000:]})
+    controls = []
+    if prop in ("C09", "C11"):
+        controls.append(("types_in_use", "descending"))
+    if prop in ("C09", "C10"):
+        controls.append(("table_length", "ascending"))
+    for rule, order in controls:
+        r = run_tlc("MC_AtomsImpl", impl_cfg(rule, order, "quick"), workers=8, timeout=1200, tag="implneg")
+        if r.error:
+            raise MachineryError("MC_AtomsImpl negative control failed to run:\n" + r.error)
+        if "Refines" not in r.violated:
+            raise MachineryError("negative control (%s, %s) not refuted: the refinement check is vacuous" % (rule, order))
+        out.notes.setdefault("negative_controls", []).append("OffsetRule=%s DeleteOrder=%s refuted as expected" % (rule, order))
+
+
 def gen_behaviours(consts, emit_ops, timeout):
     res = run_tlc("MC_AtomsAbs", cfg_text(consts, True, emit_ops, False), workers=1, timeout=timeout, tag="gen")
     if res.error:
@@ -429,6 +461,8 @@ def run(prop, tier, replay=None):
         if res.violated:
             out.violation({"op": "spec", "clause": "spec-level property violated: %s" % res.violated},
                           {"tlc_output_tail": res.stdout[-3000:]})
+        if prop in ("C09", "C10", "C11"):
+            design_level(out, prop, tier)
         # 2. generate behaviours
         behs, gres = gen_behaviours(consts, ops, 3000)
         out.notes["behaviours"] = len(behs)
